@@ -8,4 +8,16 @@ CLAIMED = {
   "text": "spec/VarMock.tla models the variable-mock mechanism (cache entry, capture-once origin, Cancel, Reset) next to the requirement of C08 (pre-mock value per builder); TLC checks mechanism=>requirement exhaustively (3 variables, 2 builders, 3 values, depth 7/9) and enumerates every history of Set/Apply/Cancel/Reset up to depth 3 (quick) / 4 (thorough) plus seeded random depth-12 histories; each history is replayed through goom's public API on 14 variable types by pointer and 9 by package.name and the variable contents read back after every step are compared with the specification's required value.",
   "note": "Trusted: TLC, the Go replayer (harness/drv) and its token<->value binding; two builders never mock the same variable; stale handles are not used; by-name interface variables excluded (documented goom limitation).",
  },
+ "C02": {
+  "ref": "DESIGN.md §4 C02",
+  "technique": "TLA+ lifecycle spec Goom.tla (mechanism + requirement layers) model-checked with TLC; TLC-enumerated histories replayed on the real library with a full .text diff after every step",
+  "text": "spec/Goom.tla models entry bytes, placeholder bodies, the global patch table with its captured origin bytes, per-builder mocker caches and When objects next to the requirement state of C02; TLC checks exhaustively (2 builders sharing 2 targets, all ops, depth 4/5) that the entry of a target is diverted only while it is mocked, that captured origin bytes are always pristine, that Reset(b) restores every target b configured and that an op on one target never changes another; every history of the image alphabet to depth 3/4 (1 builder) and 2/3 (2 builders) plus seeded random length-12 histories is replayed through Func / Struct.Method / ExportFunc / ExportMethod handles and after EVERY step the driver compares the whole executable .text with the pristine snapshot: only the 13 entry bytes of targets the spec says are mocked and the bodies of placeholders handed to goom may differ, entries must be either pristine or a complete jump, and after the final Reset no page of the image is writable.",
+  "note": "Trusted: TLC, the Go replayer and its image projection (/proc/self/maps, ELF .text bounds); call results of a target touched by two builders are not constrained (bytes are); memory outside the loaded image is not inspected here.",
+ },
+ "C12": {
+  "ref": "DESIGN.md §4 C12",
+  "technique": "TLA+ lifecycle spec Goom.tla model-checked with TLC; every history of the stub alphabet to a depth replayed through four handle kinds with explicit calls as oracle-checked steps",
+  "text": "The requirement layer of spec/Goom.tla is 'last instruction wins per target, When clauses accumulate across lookups, Apply supersedes stubs, Return/When after Apply supersede the callback, fresh start after Cancel/Reset'; the mechanism layer mirrors builder cache / mocker / When object. TLC checks mechanism=>requirement for every call in every reachable state (1 builder, 2 targets, 2 callbacks, result sequences, depth 4/5) and prints every history to depth 3/4 (1 target) and 2/3 (2 targets) plus seeded random length-10 histories over all ops; each is replayed on the real API with every Call's result compared to the required one.",
+  "note": "Trusted: TLC, Go replayer. Left unconstrained (property text silent): a bare Return/Returns on a handle that already has stubs; targets touched by two builders. Pkg() override and Interface/Var handles are covered by C07/C08 specs, not here.",
+ },
 }
